@@ -87,6 +87,10 @@ type l2 struct {
 	tainted   bool
 	cacheSize int
 	hook      *evHook
+	tailSrv   *l2srv      // the cached server a tailing follower polls while the history is written
+	tailNext  uint64      // next index that follower asks for
+	tailCalls []*l2call   // its calls made from the writer goroutine of the concurrent phase (judged afterwards)
+	deferTail atomic.Bool // true while the writer runs beside the caller
 	ops       []string
 	sawCmds   bool
 	sawSnap   bool
@@ -134,6 +138,12 @@ func runL2(r *ev.Run, rep *reporter, id caseID) {
 		}
 	}
 
+	for _, sv := range h.srvs {
+		if sv.cached && sv.limit == 4<<20 {
+			h.tailSrv = sv
+		}
+	}
+	h.tailNext = 1
 	phases := []int{3, 6, 9, 13, 11}
 	if r.Thorough() {
 		phases = []int{2, 5, 8, 12, 9, 17, 11, 23}
@@ -145,7 +155,7 @@ func runL2(r *ev.Run, rep *reporter, id caseID) {
 			return
 		}
 		h.quiesce()
-		if !h.sweep(pi) {
+		if !h.probeBoundary() || !h.sweep(pi) {
 			return
 		}
 	}
@@ -233,7 +243,7 @@ func (h *l2) quiesce() {
 	for i := 0; i < 150 && stable < 6; i++ {
 		time.Sleep(10 * time.Millisecond)
 		f, l := h.logRange()
-		if f == pf && l == pl {
+		if f == pf && l == pl && h.hook.pending.Load() == 0 {
 			stable++
 		} else {
 			stable, pf, pl = 0, f, l
@@ -343,8 +353,76 @@ func (h *l2) propose(n int) error {
 		if err := h.proposeOne(); err != nil {
 			return err
 		}
+		h.tail()
 	}
 	return nil
+}
+
+// tail is one poll of a tailing follower on the cached server: it asks for the index after the
+// last command it received (as replication/worker does) — which keeps the most recent entries in
+// the log cache while snapshots and compactions happen, the situation a production leader is in.
+// Every poll is judged like any other call. A follower told USE_SNAPSHOT resumes at the first index.
+func (h *l2) tail() {
+	if h.tailSrv == nil {
+		return
+	}
+	shape := cacheShape{}
+	c := h.call(h.tailSrv, h.tailNext)
+	h.r.Count("l2_tailing_follower_polls", 1)
+	for _, m := range c.Msgs {
+		switch m.Kind {
+		case "commands":
+			if n := len(m.Indices); n > 0 && m.Indices[n-1] >= h.tailNext {
+				h.tailNext = m.Indices[n-1] + 1
+			}
+		case "USE_SNAPSHOT":
+			if f, _ := h.logRange(); f > h.tailNext {
+				h.tailNext = f
+			}
+		}
+	}
+	if h.deferTail.Load() {
+		h.mu.Lock()
+		h.tailCalls = append(h.tailCalls, c)
+		h.mu.Unlock()
+		return
+	}
+	h.judge(c, shape, true)
+}
+
+// probeBoundary asks the cached servers for exactly the compaction index (first-1), its
+// neighbours and the first retained index, before the sweep reshuffles the cache: the entry at
+// the compaction index is the one a partial cache invalidation is most likely to get wrong.
+func (h *l2) probeBoundary() bool {
+	first, _ := h.logRange()
+	if first <= 1 {
+		return true
+	}
+	for _, sv := range h.srvs {
+		if !sv.cached {
+			continue
+		}
+		for _, a := range []uint64{first - 1, first, first - 2} {
+			if a == 0 {
+				continue
+			}
+			shape := peekCache(h.eng.LogCache, h.shard)
+			c := h.call(sv, a)
+			if a == first-1 && c.FirstBefore == first && c.FirstAfter == first {
+				h.r.Count("l2_requests_exactly_at_compaction_index", 1)
+				if c.InvalidatedBelow >= first {
+					h.r.Count("l2_requests_exactly_at_compaction_index_judged_strictly", 1)
+				}
+				if shape.OK && shape.N > 0 && shape.Lo <= a && a <= shape.Hi {
+					h.r.Count("l2_requests_at_compaction_index_while_cache_still_holds_it", 1)
+				}
+			}
+			if !h.judge(c, shape, true) {
+				return false
+			}
+		}
+	}
+	return true
 }
 
 // call performs one Replicate RPC and brackets it with samples of the log range and applied index.
@@ -442,10 +520,13 @@ func (h *l2) concurrentPhase() bool {
 	}
 	var stop atomic.Bool
 	done := make(chan error, 1)
+	h.deferTail.Store(true)
 	go func() {
 		var err error
 		for i := 0; i < 400 && err == nil && !stop.Load(); i++ {
-			err = h.proposeOne()
+			if err = h.proposeOne(); err == nil {
+				h.tail()
+			}
 		}
 		done <- err
 	}()
@@ -465,10 +546,17 @@ func (h *l2) concurrentPhase() bool {
 		calls = append(calls, h.call(s, a))
 	}
 	stop.Store(true)
-	if err := <-done; err != nil {
+	err := <-done
+	h.deferTail.Store(false)
+	if err != nil {
 		h.r.Inconclusive(fmt.Sprintf("proposal failed during the concurrent phase (%v)", err))
 		return false
 	}
+	for _, c := range h.tailCalls {
+		calls = append(calls, c)
+		shapes = append(shapes, cacheShape{})
+	}
+	h.tailCalls = nil
 	h.r.Count("l2_calls_concurrent_with_writer", int64(len(calls)))
 	for i, c := range calls {
 		if c.AppliedAfter > c.AppliedBefore {
@@ -482,7 +570,7 @@ func (h *l2) concurrentPhase() bool {
 		}
 	}
 	h.quiesce()
-	return h.sweep(99)
+	return h.probeBoundary() && h.sweep(99)
 }
 
 // entrySize is the Raft entry's SizeUpperLimit: for a proposal of the harness it follows from the
